@@ -10,7 +10,7 @@ Fail-closed: every table has one recognised shape; anything else raises Translat
 import ast
 import re
 from pycoq import (Env, parse_file, find_class, find_func, enum_members, coq_enum, coq_record, translate_method,
-                   TranslateError, dataclass_fields, fail, decorators)
+                   TranslateError, dataclass_fields, fail, decorators, norm_function)
 
 SRC_S17 = 'src/qce_circuit/connectivity/connectivity_surface_code.py'
 SRC_INTRF = 'src/qce_circuit/connectivity/intrf_connectivity_surface_code.py'
@@ -168,6 +168,9 @@ def rep_layout(cls, env):
     init = body[0]
     if [a.arg for a in init.args.args] != ['self'] or init.args.vararg or init.args.kwarg or init.decorator_list:
         fail(init, "__init__ signature")
+    # a table hoisted into a local that is only handed to the call (`gate_sequences = [...]` ... `gate_sequences=gate_sequences`) is
+    # substituted back (pycoq N1 + N4: single use in the next statement, only `super().__init__` is evaluated before it)
+    init = norm_function(init, guards=False, accumulate=False, helpers=False)
     stmts = [s for s in init.body if not (isinstance(s, ast.Expr) and isinstance(s.value, ast.Constant))]
     if len(stmts) != 1 or not isinstance(stmts[0], ast.Expr) or not isinstance(stmts[0].value, ast.Call):
         fail(init, "__init__ body is not a single call")
